@@ -168,6 +168,7 @@ type fakeNode struct {
 	entries      []entry // what the reader took from the client's channel(s)
 	streamClosed bool
 
+	t0     time.Time
 	ln     *trackListener
 	srv    *http.Server
 	rpcsrv *rpc.Server
@@ -175,7 +176,7 @@ type fakeNode struct {
 }
 
 func newFakeNode(contract ethcommon.Address, blocks map[uint64][]ethtypes.Log, head uint64) (*fakeNode, error) {
-	n := &fakeNode{contract: contract, blocks: blocks, head: head, subs: map[rpc.ID]*liveSub{}, changed: make(chan struct{})}
+	n := &fakeNode{contract: contract, blocks: blocks, head: head, subs: map[rpc.ID]*liveSub{}, changed: make(chan struct{}), t0: time.Now()}
 	l, err := net.Listen("tcp", "127.0.0.1:0")
 	if err != nil {
 		return nil, err
@@ -206,7 +207,7 @@ func (n *fakeNode) bump() {
 
 func (n *fakeNode) logf(format string, a ...any) {
 	if len(n.timeline) < 4000 {
-		n.timeline = append(n.timeline, fmt.Sprintf(format, a...))
+		n.timeline = append(n.timeline, fmt.Sprintf("+%.1fms ", float64(time.Since(n.t0).Microseconds())/1000)+fmt.Sprintf(format, a...))
 	}
 }
 
